@@ -58,8 +58,11 @@ NStepT == /\ k <= Len(Pairs) /\ k' = k + 1
 (* of the nested model is a fact about the process like any estimate, and is projected the same way.  Both cases  *)
 (* are handed to the harness.                                                                                       *)
 NullStatus == {"free", "constant"}
-NStep == \E status \in NullStatus :
-         NStepT /\ Emit([act |-> "Nested", null |-> Pairs[k].null.name, alt |-> Pairs[k].alt.name, nullstatus |-> status,
+(* What the rich function went through BEFORE it is initialised is no part of Projected either: a batch of rules   *)
+(* that was refused (an exception out of apply_param_rules) is a stuttering step of the function.                   *)
+Priors == {"none", "refused-batch"}
+NStep == \E status \in NullStatus, prior \in Priors :
+         NStepT /\ Emit([act |-> "Nested", null |-> Pairs[k].null.name, alt |-> Pairs[k].alt.name, nullstatus |-> status, prior |-> prior,
                          nullparams |-> Pairs[k].null.params, altparams |-> AltInstance(Pairs[k]).params,
                          chosen |-> [x \in 1..Len(Pairs[k].alt.pnames) |-> <<Pairs[k].alt.pnames[x],
                                         IF Unmapped(Pairs[k], Pairs[k].alt.pnames[x]) THEN "default" ELSE Chosen(Pairs[k], Pairs[k].alt.pnames[x])>>],
